@@ -980,6 +980,8 @@ val list_set : 'a1 list -> nat -> 'a1 -> 'a1 list
 
 val kr_kill : killring -> str -> kr_mode -> killring res
 
+val kr_repeated : killring -> nat -> killring
+
 val kr_yank : killring -> killring * str option
 
 val kr_yank_pop : killring -> killring * (nat * str) option
